@@ -137,6 +137,33 @@ func smCovers(f *ssa.Function) bool {
 	return smCoversRec(f, map[*ssa.Function]bool{})
 }
 
+// coveredBy: f is root, or a helper outside the pinned vocabulary that does
+// not escape and whose every call site lies in a function covered by root -
+// the exploration of root looks through such helpers, so what they do is
+// judged at root's call site.
+func coveredBy(f, root *ssa.Function, seen map[*ssa.Function]bool) bool {
+	if f == nil || seen[f] {
+		return false
+	}
+	seen[f] = true
+	if f == root {
+		return true
+	}
+	if !defaultInline(f) {
+		return false
+	}
+	cs := sitesOf(curLoaded)
+	if cs == nil || cs.escapes[f] || len(cs.calls[f]) == 0 {
+		return false
+	}
+	for _, ci := range cs.calls[f] {
+		if !coveredBy(ci.Parent(), root, seen) {
+			return false
+		}
+	}
+	return true
+}
+
 func smCoversRec(f *ssa.Function, seen map[*ssa.Function]bool) bool {
 	if f == nil || seen[f] {
 		return false
